@@ -50,9 +50,11 @@ def check(c, item):
                 # the generated model id comes from numpy's global generator: every write of every model of this run gets the SAME id
                 # (anything keyed on that id - a cache of parsed documents, say - must not confuse two models)
                 np.random.seed(20260927)
+                m.write_sbml_model(path2, stochastic_model=(not stochastic))      # the other form first, to the second path (overwritten below)
+                np.random.seed(20260927)
                 m.write_sbml_model(path, stochastic_model=stochastic)
                 np.random.seed(20260927)
-                m.write_sbml_model(path2, stochastic_model=stochastic)
+                m.write_sbml_model(path2, stochastic_model=np.bool_(stochastic))
             except Exception as e:
                 fr = '/freq-' + type(sp['rules'][0]['freq']).__name__ if sp.get('rules') else ''
                 c.violation(key + 'write-exception' + fr, 'writing a model with valid identifiers raised %r' % e, case)
